@@ -44,36 +44,56 @@ def tla_event(**kw):
     return "[Ev0 EXCEPT " + ", ".join(parts) + "]"
 
 
+def E(**kw):
+    return kw
+
+
+EV0 = {"act": "", "d": 0, "s": 0, "p": 0, "a": "", "x": "", "mode": "", "all": True, "attrs": [], "ow": False, "v": 0, "err": ""}
+
+
 def script(*evs):
-    return "<<" + ", ".join(evs) + ">>"
+    """scripted prefix as TLA+ text"""
+    return "<<" + ", ".join(tla_event(**e) for e in evs) + ">>"
 
 
-E = tla_event
+def py_history(evs):
+    """the same prefix as the event records the generator would emit (tokens numbered in order of assignment)"""
+    out, tok = [], 0
+    for e in evs:
+        r = dict(EV0, **{k: (sorted(v) if isinstance(v, (set, frozenset)) else v) for k, v in e.items()})
+        if r["act"] in ("Set", "SetIn"):
+            tok += 1
+            r["v"] = tok
+        out.append(r)
+    return out
+
+
 # scripted prefixes: states from which short exhaustive continuations are interesting
-S_EMPTY = "<<>>"
-S_MEM_A = script(E(act="New", d=1), E(act="Set", d=1, a="a"))                                   # d1 = {a:1} in memory
-S_FILE_AB = script(E(act="New", d=1), E(act="Set", d=1, a="a"), E(act="Set", d=1, a="b"),        # p1 = {a:1, b:2}, d1 in memory {a:1,b:2}
-                   E(act="WritePath", s=1, p=1, mode="w", all=True, ow=False))
-S_TWO_MEM = script(E(act="New", d=1), E(act="Set", d=1, a="a"), E(act="New", d=2), E(act="Set", d=2, a="a"),
-                   E(act="Set", d=2, a="b"))                                                     # d1 = {a:1}, d2 = {a:2, b:3}
-S_FILE_AND_MEM = script(E(act="New", d=1), E(act="Set", d=1, a="a"), E(act="WritePath", s=1, p=1, mode="w", all=True, ow=False),
-                        E(act="Del", d=1, a="a"), E(act="Set", d=1, a="a"), E(act="Set", d=1, a="b"))   # p1 = {a:1}; d1 = {a:2, b:3}
-S_HANDLE_AND_MEM = script(E(act="New", d=1), E(act="Set", d=1, a="a"), E(act="WritePath", s=1, p=1, mode="w", all=True, ow=False),
-                          E(act="Close", d=1), E(act="Open", d=1, p=1, mode="a"), E(act="New", d=2), E(act="Set", d=2, a="a"),
-                          E(act="Set", d=2, a="b"))                                              # d1 = handle on p1 {a:1}; d2 = {a:2, b:3}
-S_NESTED = script(E(act="New", d=1), E(act="Set", d=1, a="a"), E(act="New", d=2), E(act="SetDS", d=2, a="a", s=1),
-                  E(act="Set", d=2, a="b"))                                                      # d2 = {a: Dataset{a:1}, b:2}
+P_MEM_A = [E(act="New", d=1), E(act="Set", d=1, a="a")]                                         # d1 = {a:1} in memory
+P_FILE_AB = [E(act="New", d=1), E(act="Set", d=1, a="a"), E(act="Set", d=1, a="b"),              # p1 = {a:1, b:2}, d1 in memory {a:1, b:2}
+             E(act="WritePath", s=1, p=1, mode="w", all=True, ow=False)]
+P_TWO_MEM = [E(act="New", d=1), E(act="Set", d=1, a="a"), E(act="New", d=2), E(act="Set", d=2, a="a"),
+             E(act="Set", d=2, a="b")]                                                           # d1 = {a:1}, d2 = {a:2, b:3}
+P_FILE_AND_MEM = [E(act="New", d=1), E(act="Set", d=1, a="a"), E(act="WritePath", s=1, p=1, mode="w", all=True, ow=False),
+                  E(act="Del", d=1, a="a"), E(act="Set", d=1, a="a"), E(act="Set", d=1, a="b")]  # p1 = {a:1}; d1 = {a:2, b:3}
+P_HANDLE_AND_MEM = [E(act="New", d=1), E(act="Set", d=1, a="a"), E(act="WritePath", s=1, p=1, mode="w", all=True, ow=False),
+                    E(act="Close", d=1), E(act="Open", d=1, p=1, mode="a"), E(act="New", d=2), E(act="Set", d=2, a="a"),
+                    E(act="Set", d=2, a="b")]                                                    # d1 = handle on p1 {a:1}; d2 = {a:2, b:3}
+P_NESTED = [E(act="New", d=1), E(act="Set", d=1, a="a"), E(act="New", d=2), E(act="SetDS", d=2, a="a", s=1),
+            E(act="Set", d=2, a="b")]                                                            # d2 = {a: Dataset{a:1}, b:2}
 # the history every value term of the grammar is sent through (token 1 = the term): memory, write, append, copy
-S_VALUE = script(E(act="New", d=1), E(act="Set", d=1, a="a"), E(act="WritePath", s=1, p=1, mode="w", all=True, ow=False),
-                 E(act="Open", d=2, p=1, mode="a"), E(act="Set", d=2, a="b"), E(act="Close", d=2), E(act="Open", d=2, p=1, mode="copy"),
-                 E(act="WritePath", s=2, p=2, mode="w-", all=False, attrs={"a"}, ow=False))
+P_VALUE = [E(act="New", d=1), E(act="Set", d=1, a="a"), E(act="WritePath", s=1, p=1, mode="w", all=True, ow=False),
+           E(act="Open", d=2, p=1, mode="a"), E(act="Set", d=2, a="b"), E(act="Close", d=2), E(act="Open", d=2, p=1, mode="copy"),
+           E(act="WritePath", s=2, p=2, mode="w-", all=False, attrs={"a"}, ow=False)]
+S_MEM_A = script(*P_MEM_A)
+RICH = [P_FILE_AB, P_TWO_MEM, P_FILE_AND_MEM, P_HANDLE_AND_MEM, P_NESTED]
 
 
 def families(tier):
     """(name, constants/defs, mode) for the generator runs"""
     full = {"D": "1..2", "P": "1..2", "OpenModes": ALL_OPEN, "WriteModes": ALL_WRITE, "Nested": "TRUE"}
     core = {"D": "1..2", "P": "1..1", "OpenModes": '{"a", "copy", "r"}', "WriteModes": '{"a", "w"}', "Nested": "FALSE"}
-    rich = "{" + ", ".join([S_FILE_AB, S_TWO_MEM, S_FILE_AND_MEM, S_HANDLE_AND_MEM, S_NESTED]) + "}"
+    rich = "{" + ", ".join(script(*p) for p in RICH) + "}"
     if tier == "quick":
         return [
             ("full3", dict(full, Scripts="{<<>>}", MaxSteps=3), None),
@@ -89,7 +109,7 @@ def families(tier):
     ]
 
 
-def gen_run(name, c, sim, seed):
+def gen_run(name, c, sim, seed, workers=None):
     wd = lib.workdir(PID, "gen_" + name)
     defs = {k: c[k] for k in ("D", "P", "OpenModes", "WriteModes", "Scripts")}
     defs["AttrSeq"] = ATTRSEQ
@@ -97,7 +117,7 @@ def gen_run(name, c, sim, seed):
     if sim:
         kw = {"simulate": sim[0], "depth": sim[1], "seed": seed + 1}
     r = lib.run_tlc_mc("DatasetStoreGen", defs, wd, constants={"MaxSteps": c["MaxSteps"], "Nested": c["Nested"], "Canon": "TRUE"},
-                       init="GInit", next_="GNext", constraints=["Emit"], invariants=["TypeOK"], timeout=1500, **kw)
+                       init="GInit", next_="GNext", constraints=["Emit"], invariants=["TypeOK"], timeout=1500, workers=workers, **kw)
     if sim and r.rc != 0 and r.error and "rc=" not in (r.error or ""):
         lib.require_ok(r, f"DatasetStoreGen/{name}")
     elif not sim:
@@ -107,7 +127,536 @@ def gen_run(name, c, sim, seed):
         key = json.dumps(j["hist"], sort_keys=True)
         if key not in seen:
             seen.add(key)
+            j["exp"] = dsreplay.exp_to_obs(j["exp"])
             out.append(j)
+    r.out, r.json_lines = "", []
     nd = int(c["D"].split("..")[1])
     np_ = int(c["P"].split("..")[1])
     return r, out, nd, np_
+
+
+# --------------------------------------------------------------------------------------------- model checking
+def mc_run(tier, workers):
+    wd = lib.workdir(PID, "mc")
+    steps = 5 if tier == "quick" else 7
+    defs = {"D": "1..2", "P": "1..2", "AttrSeq": ATTRSEQ, "OpenModes": ALL_OPEN, "WriteModes": ALL_WRITE}
+    inv = ["TypeOK", "OneHandle", "HandleHasFile", "NoFileNoData", "Provenance", "TokensNamed"]
+    r = lib.run_tlc_mc("DatasetStore", defs, wd, constants={"MaxSteps": steps, "Nested": "TRUE", "Canon": "TRUE"},
+                       invariants=inv, properties=["PropsHold"], workers=workers, timeout=1500)
+    if r.invariant_violated or not r.ok():
+        lib.require_ok(r, "DatasetStore (model checking)")
+    return r, {"module": "DatasetStore", "MaxSteps": steps, "slots": 2, "paths": 2, "attrs": 2, "states": r.distinct,
+               "invariants": inv, "action_properties": ["SourceKept", "ErrorKeeps", "Frame", "WriteFresh", "KeepWithoutOverwrite",
+                                                        "SourceWins", "CopyIsSnapshot"]}
+
+
+def value_run(tier, workers):
+    wd = lib.workdir(PID, "valgen")
+    l2 = '{"scalar", "str", "none", "array", "op"}' if tier == "quick" else CLASSES9
+    r = lib.run_tlc("DatasetValueGen", lib.cfg(constants={"LeafKinds": CLASSES9, "LeafKinds2": l2, "Containers": '{"list", "tuple", "dict"}',
+                                                          "W1": 1, "W2": 2, "Depth": 2}, constraints=["Emit"]), wd, workers=workers, timeout=1500)
+    lib.require_ok(r, "DatasetValueGen")
+    seen, terms = set(), []
+    for j in r.json_lines:
+        if j["term"] != j["expect"]:
+            raise lib.MachineryError("value generator: expectation differs from the term")
+        k = json.dumps(j["term"], sort_keys=True)
+        if k not in seen:
+            seen.add(k)
+            terms.append(j["term"])
+    terms.sort(key=lambda t: json.dumps(t, sort_keys=True))
+    if len(terms) < 200:
+        raise lib.MachineryError("value generator produced too few terms")
+    return r, terms
+
+
+# --------------------------------------------------------------------------------------------- jobs
+def term_depth(t):
+    return 0 if not t["ch"] and t["k"] not in ("list", "tuple", "dict") else 1 + max([term_depth(c) for c in t["ch"]] + [0])
+
+
+def plan_for(hist, rng, terms, containers):
+    """a term for every token of the history: mostly cheap leaves, some rich leaves, some container terms"""
+    plan = []
+    for e in hist:
+        if e["act"] in ("Set", "SetIn"):
+            u = rng.random()
+            if u < 0.70:
+                plan.append({"k": rng.choice(V.CHEAP), "ch": []})
+            elif u < 0.88:
+                plan.append({"k": rng.choice(("sparse", "op", "ham", "pytree", "sparse", "op", "ham", "pytree", "mol")), "ch": []})
+            else:
+                plan.append(containers[rng.randrange(len(containers))])
+    return plan
+
+
+def n_tokens(hist):
+    return sum(1 for e in hist if e["act"] in ("Set", "SetIn"))
+
+
+def execute(groups, nproc):
+    """groups: list of (jobs, nD, nP).  Runs everything in a fork pool; returns {job id: result}."""
+    root = str(lib.workdir(PID, "files"))
+    tasks = []
+    for jobs, nd, np_ in groups:
+        for i in range(0, len(jobs), 20):
+            tasks.append((jobs[i:i + 20], root, nd, np_))
+    tasks.sort(key=lambda t: -sum(len(j["hist"]) for j in t[0]))
+    out = {}
+    if nproc <= 1:
+        for t in tasks:
+            for r in dsreplay.run_chunk(t):
+                out[r["id"]] = r
+        return out
+    ctx = mp.get_context("fork")
+    with ctx.Pool(nproc) as pool:
+        for res in pool.imap_unordered(dsreplay.run_chunk, tasks):
+            for r in res:
+                out[r["id"]] = r
+    return out
+
+
+# --------------------------------------------------------------------------------------------- trace validation
+def validate(traces, nd, np_, name, workers):
+    """traces: list of traces (lists of records) -> list of verdicts (step, clauses, drift) and the TLC result"""
+    wd = lib.workdir(PID, "trace_" + name)
+    path = wd / "traces.json"
+    path.write_text(json.dumps(traces, separators=(",", ":")))
+    r = lib.run_tlc_mc("Trace_DatasetStore", {"D": f"1..{nd}", "P": f"1..{np_}", "AttrSeq": ATTRSEQ, "OpenModes": ALL_OPEN,
+                                              "WriteModes": ALL_WRITE},
+                       wd, constants={"NTRACES": len(traces), "MaxSteps": 0, "Nested": "TRUE", "Canon": "FALSE"},
+                       init="TInit", next_="TNext", env={"TRACE_FILE": str(path)}, workers=workers, timeout=2400)
+    lib.require_ok(r, f"Trace_DatasetStore/{name}")
+    verd = {}
+    for t in r.tuples:
+        if t and t[0] == "V":
+            verd[t[1] - 1] = (t[2], t[3], t[4])
+    if len(verd) != len(traces):
+        missing = [i for i in range(len(traces)) if i not in verd][:3]
+        raise lib.MachineryError(f"verdicts not total for {name}: {len(verd)} of {len(traces)} (first missing: {missing}; "
+                                 f"a recorded call is not enabled in the model)")
+    return [verd[i] for i in range(len(traces))], r
+
+
+def corrupt(trace, kind, rng):
+    """negative control: returns (corrupted trace, step (1-based), clause that must be reported) or None"""
+    t = json.loads(json.dumps(trace))
+    idx = list(range(len(t)))
+    rng.shuffle(idx)
+    for i in idx:
+        o = t[i]["obs"]
+        if not t[i]["chk"]:
+            continue
+        if kind == "token":
+            for d in o["ds"]:
+                if d[0] == "open":
+                    for row in d[1]:
+                        if row[0] == "v":
+                            row[1] += 1
+                            return t, i + 1, "content"
+        elif kind == "stale":
+            for d in o["ds"]:
+                if d[0] == "open" and not d[2]:
+                    for row in d[1]:
+                        if row[0] == "v":
+                            d[2], d[3] = True, json.loads(json.dumps(d[1]))
+                            row[1] += 1
+                            return t, i + 1, "stale-view"
+        elif kind == "file":
+            for f in o["files"]:
+                if f[0] and not f[1]:
+                    for row in f[2]:
+                        if row[0] == "v":
+                            row[0], row[1] = "-", 0
+                            return t, i + 1, "file-content"
+        elif kind == "closed":
+            for d in o["ds"]:
+                if d[0] == "open":
+                    d[0] = "closed"
+                    return t, i + 1, "status"
+        elif kind == "exc":
+            if t[i]["exc"] == "":
+                t[i]["exc"] = "OSError"
+                return t, i + 1, "exc"
+        elif kind == "extra":
+            for d in o["ds"]:
+                if d[0] == "open":
+                    d[4] = 1
+                    return t, i + 1, "content"
+    return None
+
+
+def comparator_controls():
+    """every pool value must differ from a perturbed copy and from every other pool value of its class"""
+    import numpy as np
+    import scipy.sparse as sp
+    import pennylane as qp
+    n = 0
+    P = V.pools()
+    for cls, pool in P.items():
+        for i, (nm, v) in enumerate(pool):
+            if not V.equal(v, v):
+                raise lib.MachineryError(f"comparator: {cls}/{nm} is not equal to itself")
+            for nm2, v2 in pool[i + 1:]:
+                if V.equal(v, v2) and not (cls == "scalar" and {nm, nm2} == {"zero", "false"}):
+                    raise lib.MachineryError(f"comparator: {cls}/{nm} equals {cls}/{nm2}")
+                n += 1
+    pert = [(3, 4), (0.25, 0.25 + 1e-12), ("hello", "hello "), (None, 0), ([1, 2], (1, 2)), ((1, 2), [1, 2]), ({"k0": 1}, {"k1": 1}),
+            ([1, [2]], [1, [3]]), (np.arange(6).reshape(2, 3), np.arange(6).reshape(3, 2)), (np.array([1.0, 2.0]), np.array([1.0, 2.0 + 1e-9])),
+            (sp.csr_array(np.eye(2)), sp.csr_array(np.eye(2) * 2)), (sp.csr_array(np.eye(2)), sp.csr_array(np.eye(3))),
+            (qp.RX(0.5, 0), qp.RX(0.5 + 1e-9, 0)), (qp.RX(0.5, 0), qp.RX(0.5, 1)), (qp.RX(0.5, 0), qp.RY(0.5, 0)),
+            (qp.CNOT([0, 1]), qp.CNOT([1, 0])), (qp.X(0) @ qp.Z(1), qp.Z(1) @ qp.X(0)),
+            (qp.Hamiltonian([0.5, 1.0], [qp.X(0), qp.Z(1)]), qp.Hamiltonian([0.5, -1.0], [qp.X(0), qp.Z(1)])),
+            (qp.Hamiltonian([0.5, 1.0], [qp.X(0), qp.Z(1)]), qp.Hamiltonian([0.5, 1.0], [qp.X(0), qp.Y(1)])),
+            (qp.expval(qp.Z(0)), qp.var(qp.Z(0))), (qp.expval(qp.Z(0)), qp.expval(qp.Z(1))),
+            (qp.tape.QuantumScript([qp.X(0)], [qp.probs(wires=[0])], shots=10), qp.tape.QuantumScript([qp.X(0)], [qp.probs(wires=[0])], shots=11)),
+            (V.leaf("mol", "H2"), V.leaf("mol", "H3p")),
+            (qp.qchem.Molecule(["H", "H"], np.array([[0.0, 0, 0], [0, 0, 1.4]])), qp.qchem.Molecule(["H", "H"], np.array([[0.0, 0, 0], [0, 0, 1.5]])))]
+    for w, g in pert:
+        if V.equal(w, g):
+            raise lib.MachineryError(f"comparator accepted a perturbed value: {V.describe(w)} vs {V.describe(g)}")
+        n += 1
+    return n
+
+
+# --------------------------------------------------------------------------------------------- the check
+KEY_OF = {"src-closed": "read:closes-source-dataset"}
+
+
+def keys_for(act, clauses, exc):
+    out = []
+    for c in clauses.split("+"):
+        if c in KEY_OF:
+            out.append(KEY_OF[c])
+        elif c == "stale-view":
+            out.append(f"{act}:destination-handle-shows-stale-value")
+        elif c == "exc":
+            out.append(f"{act}:raised-{exc}")
+        else:
+            out.append(f"{act}:{c}")
+    return out
+
+
+def short_event(e):
+    act = e["act"]
+    sel = "all" if e["all"] else ",".join(e["attrs"])
+    if act == "New":
+        return f"d{e['d']}=Dataset()"
+    if act == "Set":
+        return f"d{e['d']}.{e['a']}=v{e['v']}"
+    if act == "SetDS":
+        return f"d{e['d']}.{e['a']}=d{e['s']}"
+    if act == "SetIn":
+        return f"d{e['d']}.{e['a']}.{e['x']}=v{e['v']}"
+    if act == "Del":
+        return f"del d{e['d']}.{e['a']}"
+    if act == "WritePath":
+        return f"d{e['s']}.write(p{e['p']},'{e['mode']}',attrs={sel},overwrite={e['ow']})"
+    if act == "WriteDS":
+        return f"d{e['s']}.write(d{e['d']},attrs={sel},overwrite={e['ow']})"
+    if act == "Open":
+        return f"d{e['d']}=open(p{e['p']},'{e['mode']}')"
+    if act == "ReadPath":
+        return f"d{e['d']}.read(p{e['p']},attrs={sel},overwrite={e['ow']})"
+    if act == "ReadDS":
+        return f"d{e['d']}.read(d{e['s']},attrs={sel},overwrite={e['ow']})"
+    return f"d{e['d']}.close()"
+
+
+def measure(trace, stats):
+    """vacuity counters and the non-triviality rule, from the recorded observations"""
+    origin, moved = {}, False
+    prev = None
+    for rec in trace:
+        e, o = rec["e"], rec["obs"]
+        stats["acts"][e["act"]] = stats["acts"].get(e["act"], 0) + 1
+        if e["mode"]:
+            k = f"{e['act']}:{e['mode']}"
+            stats["modes"][k] = stats["modes"].get(k, 0) + 1
+        if e["act"] in ("Set", "SetIn"):
+            origin[e["v"]] = e["d"]
+        if rec["exc"]:
+            stats["exceptions"][rec["exc"]] = stats["exceptions"].get(rec["exc"], 0) + 1
+        if not rec["chk"]:
+            prev = None
+            continue
+        stats["steps"] += 1
+        # conflicts: an attribute present both in the source and in the destination before the call
+        if prev is not None and e["act"] in ("WriteDS", "ReadDS", "ReadPath", "WritePath") and not rec["exc"]:
+            def rows_of(kind, i):
+                x = prev["ds"][i - 1] if kind == "d" else prev["files"][i - 1]
+                if kind == "d":
+                    return x[1] if x[0] == "open" else None
+                return x[2] if x[0] and not x[1] else None
+            src = rows_of("p", e["p"]) if e["act"] == "ReadPath" else rows_of("d", e["s"])
+            dst = rows_of("p", e["p"]) if e["act"] == "WritePath" else rows_of("d", e["d"])
+            if e["act"] == "WritePath" and e["mode"] != "a":
+                dst = None
+            if src and dst:
+                for i, a in enumerate(dsreplay.ATTRS):
+                    if src[i][0] != "-" and dst[i][0] != "-" and (e["all"] or a in e["attrs"]):
+                        stats["conflict_overwrite" if e["ow"] else "conflict_keep"] += 1
+        for di, d in enumerate(o["ds"]):
+            if d[0] == "open":
+                for row in d[1]:
+                    if row[0] == "d":
+                        stats["nested_observed"] += 1
+                    for t in [row[1]] + row[2:]:
+                        if t > 0:
+                            stats["values_read_back"] += 1
+                            if origin.get(t) != di + 1:
+                                moved = True
+        for f in o["files"]:
+            if f[0] and not f[1] and f[2]:
+                for row in f[2]:
+                    for t in [row[1]] + row[2:]:
+                        if t > 0:
+                            stats["values_read_back"] += 1
+                            stats["values_read_from_disk"] += 1
+                            moved = True
+        prev = o
+    return moved
+
+
+def run(tier, seed):
+    t00 = time.time()
+    rng = random.Random(seed)
+    W = int(os.environ.get("VERIF_TLC_WORKERS", "16"))
+    nproc = int(os.environ.get("VERIF_PY_WORKERS", str(min(16, os.cpu_count() or 4, max(2, W)))))
+    fams = families(tier)
+    # ---- phase 1: all TLC generator / model-checking runs, concurrently
+    from concurrent.futures import ThreadPoolExecutor
+    per = max(2, W // 4)
+    with ThreadPoolExecutor(max_workers=len(fams) + 2) as tp:
+        f_mc = tp.submit(mc_run, tier, per)
+        f_val = tp.submit(value_run, tier, 2)
+        f_gen = {name: tp.submit(gen_run, name, c, sim, seed, per) for name, c, sim in fams}
+        mc_res, mc_info = f_mc.result()
+        val_res, terms = f_val.result()
+        gens = {name: f.result() for name, f in f_gen.items()}
+    t_gen = time.time() - t00
+    containers = [t for t in terms if t["ch"] or t["k"] in ("list", "tuple", "dict")]
+    tlc_states = mc_res.distinct + val_res.distinct
+    tlc_trans = mc_res.generated + val_res.generated
+
+    # ---- phase 2: jobs
+    caps = {"quick": {"full3": None, "rich2": 1500, "core4": 800, "deep": 150},
+            "thorough": {"full4": None, "rich3": 60000, "core5": 40000, "deep": 4000}}[tier]
+    jobs, meta, groups = [], {}, []
+    fam_info = {}
+    jid = 0
+    exhaustive = True
+    for name, c, sim in fams:
+        r, hists, nd, np_ = gens[name]
+        tlc_states += r.distinct
+        tlc_trans += r.generated
+        total = len(hists)
+        cap = caps.get(name)
+        if sim:
+            hists = sorted(hists, key=lambda j: (-len(j["hist"]), json.dumps(j["hist"], sort_keys=True)))
+            long_ = [j for j in hists if len(j["hist"]) >= 6]
+            hists = rng.sample(long_, min(cap, len(long_)))
+        elif cap is not None and total > cap:
+            keep1 = [j for j in hists if len(j["hist"]) - j["pre"] <= 1]       # every one-call continuation of a scripted prefix
+            rest = [j for j in hists if len(j["hist"]) - j["pre"] > 1]
+            hists = keep1 + rng.sample(rest, max(0, cap - len(keep1)))
+            exhaustive = False
+        fam_info[name] = {"histories_enumerated": total, "replayed": len(hists), "tlc_states": r.distinct,
+                          "simulation": bool(sim), "bounds": {k: c[k] for k in ("D", "P", "MaxSteps", "Nested", "OpenModes", "WriteModes")}}
+        gjobs, seen_pre = [], set()
+        for j in hists:
+            pre = j["pre"]
+            pkey = json.dumps(j["hist"][:pre], sort_keys=True)
+            obs_from = 0 if (pre == 0 or pkey not in seen_pre) else pre - 1
+            seen_pre.add(pkey)
+            job = {"id": jid, "hist": j["hist"], "plan": plan_for(j["hist"], rng, terms, containers), "seed": seed * 1000003 + jid,
+                   "obs_from": obs_from}
+            meta[jid] = {"family": name, "exp": j["exp"], "nd": nd, "np": np_}
+            gjobs.append(job)
+            jid += 1
+        groups.append((gjobs, nd, np_))
+        jobs += gjobs
+    # the value grammar: every term goes through the write / append / copy history
+    vhist = py_history(P_VALUE)
+    vjobs = []
+    vterms = terms
+    if tier == "quick":          # every term of depth <= 1, a seeded sample of the depth-2 terms (all of them in the thorough tier)
+        shallow = [t for t in terms if term_depth(t) <= 1]
+        deep2 = [t for t in terms if term_depth(t) > 1]
+        vterms = shallow + rng.sample(deep2, min(320, len(deep2)))
+        exhaustive = False
+    for t in vterms:
+        job = {"id": jid, "hist": vhist, "plan": [t, {"k": rng.choice(V.CHEAP), "ch": []}], "seed": seed * 1000003 + jid, "obs_from": 0}
+        meta[jid] = {"family": "values", "exp": None, "nd": 2, "np": 2, "term": t}
+        vjobs.append(job)
+        jid += 1
+    groups.append((vjobs, 2, 2))
+    jobs += vjobs
+    fam_info["values"] = {"terms_enumerated": len(terms), "replayed": len(vjobs), "history": [short_event(e) for e in vhist],
+                          "leaf_classes": list(V.CLASSES), "pool_sizes": {k: len(v) for k, v in V.pools().items()}}
+    n_cmp = comparator_controls()
+
+    t1 = time.time()
+    results = execute(groups, nproc)
+    t_exec = time.time() - t1
+    if len(results) != len(jobs):
+        raise lib.MachineryError("replay lost jobs")
+
+    # ---- phase 3: trace validation (one TLC run per (slots, paths) shape), with corrupted copies as negative controls
+    by_shape = {}
+    for job in jobs:
+        m = meta[job["id"]]
+        by_shape.setdefault((m["nd"], m["np"]), []).append(job["id"])
+    verdict, controls = {}, []
+    kinds = ["token", "stale", "file", "closed", "exc", "extra"]
+    runs = []
+    for (nd, np_), ids in sorted(by_shape.items()):
+        traces = [results[i]["trace"] for i in ids]
+        ctl = []
+        if (nd, np_) == (2, 2):
+            cand = [i for i in ids if not any(r["e"]["act"] in ("ReadDS", "WriteDS", "ReadPath") for r in results[i]["trace"])]
+            rng.shuffle(cand)
+            want = 30 if tier == "quick" else 120
+            for n_, i in enumerate(cand[:want * 2]):
+                cr = corrupt(results[i]["trace"], kinds[n_ % len(kinds)], rng)
+                if cr and len(ctl) < want:
+                    ctl.append((i, len(traces), cr[1], cr[2], kinds[n_ % len(kinds)]))
+                    traces.append(cr[0])
+        runs.append((nd, np_, ids, traces, ctl))
+    t2 = time.time()
+    with ThreadPoolExecutor(max_workers=len(runs)) as tp:
+        futs = [tp.submit(validate, traces, nd, np_, f"{nd}x{np_}", max(2, W // len(runs))) for nd, np_, ids, traces, ctl in runs]
+        outs = [f.result() for f in futs]
+    t_val = time.time() - t2
+    neg_ok, neg_total = 0, 0
+    for (nd, np_, ids, traces, ctl), (verds, r) in zip(runs, outs):
+        tlc_states += r.distinct
+        tlc_trans += r.generated
+        for k, i in enumerate(ids):
+            verdict[i] = verds[k]
+        for (orig, pos, step, clause, kind) in ctl:
+            if verdict[orig][1] != "ok":
+                continue                      # the original is not explained itself: uninformative control
+            neg_total += 1
+            st, cl, _ = verds[pos]
+            if st == step and clause in cl.split("+"):
+                neg_ok += 1
+            else:
+                raise lib.MachineryError(f"negative control accepted: corrupted ({kind}) step {step}, expected clause {clause}, verdict {(st, cl)}")
+    if neg_total < 10:
+        raise lib.MachineryError(f"too few informative negative controls: {neg_total}")
+
+    # ---- verdicts -> violations; evidence
+    stats = {"acts": {}, "modes": {}, "exceptions": {}, "steps": 0, "conflict_overwrite": 0, "conflict_keep": 0, "nested_observed": 0,
+             "values_read_back": 0, "values_read_from_disk": 0}
+    viol, drift, fidelity, nontriv, samples = [], 0, {}, set(), []
+    bad_by_key = {}
+    leaf_seen = set()
+    for job in jobs:
+        i = job["id"]
+        res, m = results[i], meta[i]
+        step, clauses, dr = verdict[i]
+        drift += dr
+        for k, v in res["fidelity"].items():
+            fidelity[k] = fidelity.get(k, 0) + v
+        tr = res["trace"] if clauses == "ok" else res["trace"][:step]
+        moved = measure(tr, stats)
+        for vn in res["values"]:
+            leaf_seen.update(vn["leaves"])
+        hkey = json.dumps([r["e"] for r in res["trace"]], sort_keys=True)
+        if moved:
+            nontriv.add((hkey, json.dumps(job["plan"], sort_keys=True)))
+        if clauses == "ok":
+            # cross-check with the generator's own expectation for the end of the history
+            if m["exp"] is not None and res["trace"] and res["trace"][-1]["chk"]:
+                want = json.loads(json.dumps(m["exp"]))
+                o = res["trace"][-1]["obs"]
+                got = {"ds": [[d[0], d[1] if d[0] == "open" else 0] for d in o["ds"]],
+                       "files": [[f[0], f[2] if f[0] and not f[1] else 0] for f in o["files"]]}
+                for fi, f in enumerate(o["files"]):
+                    if f[1]:
+                        want["files"][fi][1] = 0
+                if got != want:
+                    raise lib.MachineryError(f"trace accepted but the final observation differs from the generator's expectation: {got} vs {want}")
+            if len(samples) < 4 and moved and (m["family"] == "values" or len(job["hist"]) >= 5) and (len(samples) % 2 == 0) == (m["family"] != "values"):
+                samples.append({"family": m["family"], "history": [short_event(e) for e in job["hist"]],
+                                "values": [v["leaves"] or v["term"] for v in res["values"]], "verdict": "ok"})
+            continue
+        ev = res["trace"][step - 1]["e"]
+        exc = res["trace"][step - 1]["exc"]
+        for key in keys_for(ev["act"], clauses, exc):
+            bad_by_key.setdefault(key, []).append(i)
+    for key, ids in sorted(bad_by_key.items()):
+        ids.sort(key=lambda i: (len(results[i]["trace"]), i))
+        for i in ids[:3]:
+            res, job = results[i], jobs[i]
+            step, clauses, _ = verdict[i]
+            hist = [short_event(e) for e in job["hist"][:step]]
+            viol.append(Violation(key=key, detail=f"step {step} [{clauses}] of history {hist}; values {[v['leaves'] or v['term'] for v in res['values']]}; "
+                                                  f"notes {res['notes']}; observed after the step: {res['trace'][step - 1]['obs']} "
+                                                  f"({len(ids)} histories fail with this key)",
+                                  replay={"hist": job["hist"][:step], "plan": job["plan"], "seed": job["seed"], "nd": meta[i]["nd"], "np": meta[i]["np"],
+                                          "verdict": [step, clauses], "trace": res["trace"][:step]}))
+    # vacuity
+    need = ["New", "Set", "SetDS", "SetIn", "Del", "WritePath", "WriteDS", "Open", "ReadPath", "ReadDS", "Close"]
+    miss = [a for a in need if not stats["acts"].get(a)]
+    mmiss = [m_ for m_ in ("Open:w", "Open:w-", "Open:a", "Open:r", "Open:copy", "WritePath:w", "WritePath:w-", "WritePath:a") if not stats["modes"].get(m_)]
+    if miss or mmiss or not stats["conflict_overwrite"] or not stats["conflict_keep"] or not stats["nested_observed"] or not stats["values_read_from_disk"]:
+        raise lib.MachineryError(f"vacuous: actions never explained {miss}, modes {mmiss}, stats {stats}")
+    want_leaves = {f"{k}/{nm}" for k, pool in V.pools().items() for nm, _ in pool}
+    cov = {"states": tlc_states, "transitions": tlc_trans,
+           "traces_validated_against_impl": len(jobs), "evaluations": stats["steps"],
+           "distinct_nontrivial": len(nontriv),
+           "rule": "distinct (history, value terms) in which a value was read back, equal to what was assigned, from a place other than the "
+                   "dataset object it was assigned to (a file on disk, a handle on that file, a copy, the destination of write/read)",
+           "samples": samples, "exhaustive": exhaustive,
+           "model": dict(mc_info, violated=mc_res.invariant_violated),
+           "families": fam_info, "calls_explained": stats["acts"], "modes": stats["modes"], "expected_failures_seen": stats["exceptions"],
+           "values_read_back": stats["values_read_back"], "values_read_from_disk": stats["values_read_from_disk"],
+           "conflicts_overwritten": stats["conflict_overwrite"], "conflicts_kept": stats["conflict_keep"],
+           "nested_datasets_observed": stats["nested_observed"],
+           "value_terms": len(terms), "pool_instances_used": len(leaf_seen & want_leaves), "pool_instances": len(want_leaves),
+           "negative_controls_rejected": neg_ok, "comparator_controls": n_cmp,
+           "observations_read": sum(r_["read"] for r_ in results.values()), "observations_reused_unchanged_storage": sum(r_["reused"] for r_ in results.values()),
+           "model_drift": drift, "fidelity_notes": fidelity, "histories_not_explained": sum(1 for v in verdict.values() if v[1] != "ok"),
+           "reassigning_existing_attribute_raises": probe_reassign(),
+           "wall": {"tlc_generate_s": round(t_gen, 1), "replay_s": round(t_exec, 1), "tlc_validate_s": round(t_val, 1), "py_workers": nproc}}
+    return CheckResult(coverage=cov, violations=viol, assumptions=[
+        "at most one open handle per path at any time; attribute lists name attributes present in the source",
+        "an attribute is assigned only where it is absent (re-assignment = del + assign; `d.a = v` on an existing attribute raises in this tree, "
+        "see reassigning_existing_attribute_raises)",
+        "two attribute names, <= 3 python variables, <= 2 paths, nested datasets one level deep; identifiers and AttributeInfo metadata are not modelled",
+        "equality per type: numbers/strings by ==, None by identity, containers by kind and elementwise, arrays by shape and values, sparse "
+        "by shape and values, operators/Hamiltonians by class, wires, parameters, sub-operators and (<= 3 wires) matrix, molecules by their "
+        "constructor fields, measurement processes and tapes structurally; dtype / sparse class / requires_grad differences are counted, not judged",
+        "values are instances from a finite pool per class (harness/dsvalues.py); containers to depth 2, width 2"])
+
+
+def probe_reassign():
+    """observation only (not part of the property): does `d.a = v` on an existing attribute replace it?"""
+    from pennylane.data import Dataset
+    d = Dataset(a=1)
+    try:
+        d.a = 2
+        return False if d.a == 2 else "silently-kept-old-value"
+    except Exception as ex:
+        return type(ex).__name__
+
+
+def replay(path, tier, seed):
+    rep = json.loads(open(path).read())["replay"]
+    job = {"id": 0, "hist": rep["hist"], "plan": rep["plan"], "seed": rep["seed"], "obs_from": 0}
+    for e in job["hist"]:
+        e.setdefault("err", "")
+    res = execute([([job], rep["nd"], rep["np"])], 1)[0]
+    verds, r = validate([res["trace"]], rep["nd"], rep["np"], "replay", 2)
+    step, clauses, _ = verds[0]
+    viol = []
+    if clauses != "ok":
+        ev, exc = res["trace"][step - 1]["e"], res["trace"][step - 1]["exc"]
+        for key in keys_for(ev["act"], clauses, exc):
+            viol.append(Violation(key=key, detail=f"step {step} [{clauses}] of {[short_event(e) for e in job['hist'][:step]]}; notes {res['notes']}",
+                                  replay=rep))
+    return CheckResult(coverage={"states": r.distinct, "transitions": r.generated, "traces_validated_against_impl": 1, "evaluations": len(res["trace"]),
+                                 "distinct_nontrivial": 1, "rule": "replay of one stored history", "samples": [[short_event(e) for e in job["hist"]]],
+                                 "exhaustive": False}, violations=viol)
